@@ -81,10 +81,7 @@ var GenesisTime = time.Unix(1_790_000_000, 0).UTC()
 
 // NewWorld boots the real app and commits genesis (height 1).
 func NewWorld(t *testing.T, seed int64, nAccts int) *World {
-	app := simapp.InitElysTestApp(true, t)
-	if _, err := app.Commit(); err != nil {
-		t.Fatalf("commit genesis: %v", err)
-	}
+	app := detInitApp(t, seed)
 	w := &World{
 		T: t, App: app, Rng: rand.New(rand.NewSource(seed)),
 		byAddr: map[string]*Acct{}, Time: GenesisTime,
